@@ -53,10 +53,14 @@ def run_parser(I, boundary, body, buffer_size, M, P):
     return None, fields, fl
 
 
-def body_parser_limits(I, X, framing="CRLF", shape=("field",), n=2, buffer_size=16, use_M=True, use_P=True):
+def body_parser_limits(I, X, framing="CRLF", shape=("field",), n=2, buffer_size=16, use_M=True, use_P=True, pad=0):
     boundary = b"b"
     K = NL[framing]
     payload = X.bytes("payload", n, minlen=n)
+    if pad:
+        # a long field: `pad` concrete bytes around the symbolic ones, so that the field is
+        # larger than the header block and spans several reads
+        payload = pconcat(b"p" * (pad // 2), payload, b"q" * (pad - pad // 2))
     X.assume(pnone_in(payload, [(128, 255)]))
     if framing == "LF":
         X.assume(pnone_in(payload, [13]))
@@ -264,6 +268,15 @@ def obligations(tier, seed):
                             "opts": {"budget_s": 600, "ctx": {"loop_bound": 1000}},
                             "witness": n == 2 and bs == 16 and shape == ("field",),
                         })
+    for shape in [("field",), ("field", "file")]:
+        for pad in ([70] if quick else [70, 130]):
+            for bs in ([16, 48] if quick else [7, 16, 32, 48, 64, 100]):
+                out.append({
+                    "name": f"parser_limits_long_field[{'+'.join(shape)},pad={pad},bs={bs}]",
+                    "body": "body_parser_limits",
+                    "params": {"framing": "CRLF", "shape": list(shape), "n": 1, "buffer_size": bs, "use_M": True, "use_P": False, "pad": pad},
+                    "opts": {"budget_s": 900, "ctx": {"loop_bound": 1000}},
+                })
     for framing in ["CRLF"] if quick else ["CRLF", "LF", "CR"]:
         for nparts in (1, 2, 3):
             for n in ([0, 3] if quick else [0, 1, 2, 3, 4]):
